@@ -45,7 +45,13 @@ Definition verdict_C14 (c : c14) : list (N * N) :=
             + bit (match expected with Some e => negb (same_set e (k_cached c)) | None => false end) 2
             + bit (match fin, expected with Some _, Some _ => false | _, _ => true end) 4
             + bit (match expected with Some e => negb (same_set e (ss_cached st)) | None => false end) 8 in
-  let q1 := bit (negb (same_set (ss_plugin st) (k_plugin c))) 1 in
+  (* spec: plugin files = those of phase 3 and everything reachable through star imports / pytest_plugins *)
+  let pexpected := dedup path_eqb (ss_plugin st3 ++ star_closure fd (k_sp c) (k_dists c) (k_pths c)
+                                                    (S (length fd + edge_count fd + length fd)) []
+                                                    (flat_map (star_targets fd (k_sp c) (k_dists c) (k_pths c)) (ss_plugin st3))) in
+  let q1 := bit (negb (same_set (ss_plugin st) (k_plugin c))) 1
+            + bit (negb (same_set pexpected (k_plugin c))) 2
+            + bit (negb (same_set pexpected (ss_plugin st))) 8 in
   (* flags: third-party by where the source lives, plugin iff the file is a plugin file *)
   let flag_ok := fun (pl : list path) (d : idef) =>
                    Bool.eqb (id_third d) (third (id_file d)) && Bool.eqb (id_plugin d) (mem_path (id_file d) pl) in
